@@ -57,6 +57,7 @@ type Violation struct {
 	PCSize  int
 	Trace   []int64
 	UsesUF  bool // the path applied uninterpreted functions (hashes, curve) to symbolic arguments
+	Refined bool // the model agrees with the real hash functions at its own argument points
 }
 
 type frame struct {
@@ -706,6 +707,16 @@ func (m *Machine) Oblige(cond *smt.Term, label, kind string) {
 		m.defineNondets()
 		v := Violation{Label: label, Kind: kind, Pos: m.where(), PCSize: len(m.pc), Trace: append([]int64(nil), m.trace...), UsesUF: m.usedUF}
 		if m.Sol.Check() == smt.Sat {
+			// prefer a model that agrees with the real hash functions at its own argument points
+			v.Refined = m.refineUF()
+			if !v.Refined {
+				// fall back to the unrefined model (it will be classified by the native replay)
+				m.Sol.Pop()
+				m.Sol.Push()
+				m.Sol.Assert(smt.Not(cond))
+				m.defineNondets()
+				m.Sol.Check()
+			}
 			v.Model, v.Nondets = m.modelStrings()
 		}
 		m.Sol.Pop()
@@ -723,6 +734,13 @@ func (m *Machine) Oblige(cond *smt.Term, label, kind string) {
 func (m *Machine) defineNondets() {
 	for _, n := range m.nondets {
 		m.Sol.Define(n.T)
+	}
+	// terms whose values the UF refinement reads must exist before check-sat (z3 drops the model otherwise)
+	for _, pts := range m.ufPoints {
+		for _, p := range pts {
+			m.Sol.Define(p.args[0])
+			m.Sol.Define(p.res)
+		}
 	}
 }
 
